@@ -3,6 +3,7 @@
 # repository's test-suite (nextest, whole workspace, offline), report pass/fail counts vs the 195 baseline, revert.
 M="$1"; SRC=/tmp/mut/$M; [ -f /verif/seeded/$M/patch.diff ] && SRC=/verif/seeded/$M
 cd /tmp/wt/confirm || exit 2
+exec 9>/tmp/wt/confirm.lock; flock 9
 git checkout -q -- . && git apply "$SRC/patch.diff" || { echo "patch does not apply"; exit 2; }
 cargo nextest run --workspace --no-fail-fast --test-threads 8 --offline > /tmp/wt/confirm-$M.log 2>&1
 grep -E "Summary|tests run" /tmp/wt/confirm-$M.log | tail -2
